@@ -127,14 +127,39 @@ package extendeddaemonsetreplicaset
 //@   ensures result1 == nil ==> result != nil && fresh(result) && result.NewStatus != nil && fresh(result.NewStatus)
 //@             && (result.NewStatus.Conditions == nil || freshroot(result.NewStatus.Conditions))
 //@             && (result.PodByNodeName == nil || fresh(result.PodByNodeName))
+//@   ensures parameters-come-from-the-objects-read: result1 == nil ==> result.Strategy == &daemonset.Spec.Strategy && result.Replicaset == replicaset
+//@             && result.ReplicaSetStatus == retrieveReplicaSetStatus(daemonset, replicaset.ObjectMeta.Name)
+//@   ensures mapped-nodes-exist: result1 == nil ==> (forall n *strategy.NodeItem :: (n in result.PodByNodeName) ==> n != nil && n.Node != nil)
+//@             && (forall i int :: 0 <= i && i < len(result.UnscheduledPods) ==> result.UnscheduledPods[i] != nil)
+// Environment assumption (not provable from the code): the kubelet sets status.startTime before it reports container statuses; the
+// canary failure detection dereferences it for pods that report a waiting container.
+//@   ensures assumed-pods-with-container-statuses-have-a-start-time: result1 == nil ==>
+//@             forall n *strategy.NodeItem :: (n in result.PodByNodeName) && result.PodByNodeName[n] != nil ==> result.PodByNodeName[n].Status.StartTime != nil
 //@ func (*Reconciler).applyStrategy
-//@   trusted
 //@   logs
-//@   requires r != nil && strategyParams != nil && strategyParams.NewStatus != nil
+//@   requires r != nil && r.client != nil && daemonset != nil && strategyParams != nil && strategyParams.NewStatus != nil
+//@   requires strategyParams.Strategy != nil && strategyParams.Replicaset != nil
+//@   requires strategyParams.Strategy.RollingUpdate.SlowStartIntervalDuration != nil && strategyParams.Strategy.RollingUpdate.MaxParallelPodCreation != nil
+//@             && strategyParams.Strategy.RollingUpdate.SlowStartAdditiveIncrease != nil
+//@   let canary = strategyParams.Strategy.Canary
+//@   requires canary != nil ==> canary.AutoPause != nil && canary.AutoPause.Enabled != nil && canary.AutoPause.MaxRestarts != nil
+//@             && canary.AutoFail != nil && canary.AutoFail.Enabled != nil && canary.AutoFail.MaxRestarts != nil
+//@   requires forall n *strategy.NodeItem :: (n in strategyParams.PodByNodeName) ==> n != nil && n.Node != nil
+//@   requires forall n *strategy.NodeItem :: (n in strategyParams.PodByNodeName) && strategyParams.PodByNodeName[n] != nil ==> strategyParams.PodByNodeName[n].Status.StartTime != nil
+//@   requires forall i int :: 0 <= i && i < len(strategyParams.UnscheduledPods) ==> strategyParams.UnscheduledPods[i] != nil
+//@   requires strategyParams.ReplicaSetStatus == "active" || strategyParams.ReplicaSetStatus == "canary" || strategyParams.ReplicaSetStatus == "unknown"
 //@   modifies strategyParams.NewStatus.Conditions, elems(strategyParams.NewStatus.Conditions), mapof(strategyParams.PodByNodeName)
-//@   ensures result != nil && fresh(result) && result.NewStatus != nil && fresh(result.NewStatus)
-//@             && (result.NewStatus.Conditions == nil || freshroot(result.NewStatus.Conditions))
-//@   ensures no-pod-creation-or-deletion-by-update: forall k int :: lognew(k) ==> logverb(k) == "List" || logverb(k) == "Patch" || logverb(k) == "Delete"
+//@   ensures [C16] always-a-result: result != nil && fresh(result)
+//@   ensures [C16] a-missing-status-means-an-error: result.NewStatus == nil ==> result1 != nil
+//@   ensures prepared-status-backing: strategyParams.NewStatus.Conditions == old(strategyParams.NewStatus.Conditions)
+//@             || root(strategyParams.NewStatus.Conditions) == old(root(strategyParams.NewStatus.Conditions)) || freshroot(strategyParams.NewStatus.Conditions)
+//@   ensures status-is-fresh: result.NewStatus != nil ==> fresh(result.NewStatus) && (result.NewStatus.Conditions == nil || freshroot(result.NewStatus.Conditions))
+//@   ensures [C04] a-leftover-replica-set-plans-nothing: strategyParams.ReplicaSetStatus == "unknown" ==> len(result.PodsToCreate) == 0 && len(result.PodsToDelete) == 0
+//@   ensures [C04] a-canary-without-canary-strategy-plans-nothing: strategyParams.ReplicaSetStatus == "canary" && canary == nil ==>
+//@             len(result.PodsToCreate) == 0 && len(result.PodsToDelete) == 0 && result1 != nil && loglen() == old(loglen())
+//@   ensures [C01,C04] creates-only-where-no-pod-exists: forall i int :: 0 <= i && i < len(result.PodsToCreate) ==>
+//@             (result.PodsToCreate[i] in strategyParams.PodByNodeName) && strategyParams.PodByNodeName[result.PodsToCreate[i]] == nil
+//@   ensures [C09,C11] no-pod-creation-or-deletion-by-update: forall k int :: lognew(k) ==> logverb(k) == "List" || logverb(k) == "Patch" || logverb(k) == "Delete"
 //@
 //@ func (*Reconciler).Reconcile
 //@   logs
